@@ -472,3 +472,35 @@ package bkl
 //@ func Parser.Documents(p) (res)
 //@   property C19
 //@   modifies nothing
+
+// ------------------------------------------------------------------------------------------------- termination: interpolation, $parent chains
+
+//@ func process2String(obj, mergeFrom, mergeFromDocs, ec, depth) (res, err)
+//@   decreases (- 1002 depth) 1
+//@ func process2StringInterp(obj, mergeFrom, mergeFromDocs, ec, depth) (res, err)
+//@   decreases (- 1002 depth) 0
+
+//@ func Parser.loadFile(p, path, child) (res, err)
+//@   ensures (=> (not (isErr err)) (and (>= res allocTop) (not (= res 0))))
+//@   ensures (=> (not (isErr err)) (= (file.depth res) (ite (= child 0) 0 (+ (old (file.depth child)) 1))))
+//@   ensures (=> (not (isErr err)) (<= (file.depth res) 1000))
+//@   ensures (forall ((r Int)) (=> (< r allocTop) (= (file.depth r) (old (file.depth r)))))
+//@   loop 1
+//@     invariant (= (file.depth f) (ite (= child 0) 0 (+ (file.depth child) 1)))
+//@     invariant (forall ((r Int)) (=> (< r (old allocTop)) (= (file.depth r) (old (file.depth r)))))
+//
+//@ func Parser.loadFileAndParents(p, path, child) (res, err)
+//@   requires (=> (not (= child 0)) (>= (file.depth child) 0))
+//@   ensures (forall ((r Int)) (=> (< r allocTop) (= (file.depth r) (old (file.depth r)))))
+//@   decreases (- 1001 (ite (= child 0) (- 1) (file.depth child)))
+//@   loop 1
+//@     invariant (forall ((r Int)) (=> (< r (old allocTop)) (= (file.depth r) (old (file.depth r)))))
+//@     invariant (and (<= (file.depth f) 1000) (< f allocTop) (not (= f 0)))
+//@     invariant (= (file.depth f) (ite (= child 0) 0 (+ (old (file.depth child)) 1)))
+
+// termination of the $encode dispatch: "flags" expands to two transforms that are not "flags"
+//@ func process2EncodeAny(obj, mergeFrom, mergeFromDocs, v, depth) (res, err)
+//@   uses flagsApp
+//@   decreases (flagsIn v) (rank v) 1
+//@ func process2EncodeString(obj, mergeFrom, mergeFromDocs, v, depth) (res, err)
+//@   decreases (flagsIn (VStr v)) 0 0
